@@ -147,7 +147,9 @@ class Taus(object):
         )
         E_tau[beta_high] = np.finfo(np.float32).eps
 
-        return E_tau * (10**log_e_nu)
+        # (a float base: with integer-typed energies 10**log_e_nu is an integer power that overflows
+        # silently, e.g. for int32 energies of 10 and above)
+        return E_tau * (10.0**log_e_nu)
 
     @decorators.nss_result_plot(
         taus_density_beta, taus_histogram, taus_pexit, taus_overview
